@@ -64,7 +64,7 @@ def run(pid, cfg, bdir, repo, coqlib, note):
     kinds = ["vec3", "stokes", "est", "vecest", "vec2c", "basis", "hand", "arg"]
     cases = []
     corpus = [("est", "(1.5+-0.25)"), ("est", "(1.5+0.25)"), ("basis", "7"), ("basis", "lin"), ("vec3", "(1,2,3"), ("vecest", "((1+-0.5),(2+-0.25))"),
-              ("basis", "1abc"), ("hand", "-1"), ("arg", "0"), ("vec3", "(1;2,3)"), ("est", ""), ("basis", ""), ("vec2c", "((1,2),(3,4))")]
+              ("basis", "1abc"), ("est", "-7+-"), ("est", "0.0625+- tail"), ("est", " +1024+-(4) tail"), ("est", "-3.75+-x"), ("vecest", "(1+-,2+-0.5)"), ("hand", "-1"), ("arg", "0"), ("vec3", "(1;2,3)"), ("est", ""), ("basis", ""), ("vec2c", "((1,2),(3,4))")]
     cases += corpus
     dist = {}
     while len(cases) < n:
@@ -115,9 +115,12 @@ def run(pid, cfg, bdir, repo, coqlib, note):
         if ok_impl != (mv is not None):
             bad = "fail state differs"
         elif ok_impl:
-            ivals = [Fraction(float(x)) for x in im[2].split(",") if x]
+            # the implementation holds binary64 values: each must be the correctly rounded image of the model's
+            # exact rational (istream >> double rounds correctly; Estimate stores err*err and reports its square
+            # root, which returns err exactly in radix 2 barring over/underflow)
+            ivals = [float(x) for x in im[2].split(",") if x]
             nums, raw, rest = mv
-            if ivals != nums: bad = "value differs"
+            if ivals != [float(q) for q in nums]: bad = "value differs"
             if not bad and (im[3] if len(im) > 3 else "") != rest:
                 bad = "stream position differs"
         elif k == "est" and im[2] != "7,3":
